@@ -81,6 +81,14 @@ def main():
         grammars.seen_rule_set(variant)
         grammars.unary_table(variant)
         grammars.shipped('targets', variant)
+    # the printers and readers are imported once here, so that the per-run children neither compile them
+    # again nor meet a fault (F10) in the middle of an import
+    import warnings
+    with warnings.catch_warnings():
+        warnings.simplefilter('ignore', SyntaxWarning)
+        import depccg.printer          # noqa
+        import depccg.tools.reader     # noqa
+        import depccg.tools.ja.reader  # noqa
     if hasattr(prop, 'prepare'):
         prop.prepare()
 
